@@ -113,6 +113,12 @@ class ExecInstruction(MichelsonInstruction, prim='EXEC'):
         return cls(item)
 
 
+def strip_type_annots(ty: Type[MichelsonType]) -> Type[MichelsonType]:
+    """Same type without field and type annotations at any depth"""
+    args = [strip_type_annots(arg) if isinstance(arg, type) and issubclass(arg, MichelsonType) else arg for arg in ty.args]
+    return ty.create_type(args=args)
+
+
 class ApplyInstruction(MichelsonInstruction, prim='APPLY'):
     @classmethod
     def execute(cls, stack: MichelsonStack, stdout: List[str], context: AbstractContext):
@@ -124,7 +130,7 @@ class ApplyInstruction(MichelsonInstruction, prim='APPLY'):
 
         new_value = MichelineSequence.create_type(
             args=[
-                PushInstruction.create_type(args=[left_type, left.to_literal()]),
+                PushInstruction.create_type(args=[strip_type_annots(left_type), left.to_literal()]),  # the closure does not depend on annotations
                 PairInstruction,
                 lambda_.value,
             ]
